@@ -618,3 +618,81 @@ def fam_conc(tier: str, rng: random.Random, isasync: bool = False) -> Iterator[d
         d1 = [Op("call", 1, 0, 1)]
         d2 = [Op("call", 1, 0, 2), Op("call", 1, 0, 1)]
         yield Prog(fns, cons, [], [], [], [d1, d2], tag="conc-spawn-in-window")
+
+
+def fam_inv_async(tier: str, rng: random.Random) -> Iterator[dict]:
+    """C03/C13: async public methods of a class with invariants, mixed with sync ones; operation sequences."""
+    members = [("method", 0, True), ("method", 2, True), ("method", 1, True), ("protected", 2, False),
+               ("method", 1, False), ("method", 0, False)]
+    nm = len(members)
+    seqs = [[m] for m in range(1, nm + 1)] + [[a, b] for a in range(1, nm + 1) for b in range(1, nm + 1)]
+    tri = [[a, b, c] for a in range(1, nm + 1) for b in range(1, nm + 1) for c in range(1, nm + 1)]
+    if tier != "thorough":
+        rng.shuffle(tri)
+        tri = tri[:80]
+    for ops in seqs + tri:
+        for inv_on in (["CALL"], ["ALL"]):
+            p = class_prog(inv_on, [(k, st) for k, st, _ in members], [(m, 1) for m in ops], tag="inv-async")
+            for i, (_, _, isasync) in enumerate(members):
+                p["fn"][i + 1]["async"] = isasync
+            yield p
+
+
+def fam_reent_inst(tier: str, rng: random.Random) -> Iterator[dict]:
+    """C10: invariants calling public methods of their object; methods calling methods of the same / another
+    instance; a precondition of a method calling the method on the other instance."""
+    SELF = -1
+    inv_scripts = [[], [Op("call", 2, SELF, 1)], [Op("call", 2, SELF, 1), Op("call", 3, SELF, 1)], [Op("call", 3, 2, 1)]]
+    body_scripts = [[], [Op("call", 3, SELF, 1)], [Op("call", 2, 2, 1, when=2)], [Op("call", 2, 2, 1, when=2), Op("call", 3, SELF, 1)]]
+    pre_scripts = [[], [Op("call", 2, SELF, 1)], [Op("call", 2, 2, 1)], [Op("call", 3, SELF, 1), Op("call", 3, SELF, 1)]]
+    for s_inv in inv_scripts:
+        for s_b2 in body_scripts:
+            for s_pre in pre_scripts:
+                for isasync in ((False, True) if tier == "thorough" else (False,)):
+                    cons = [Con("inv", "default", False, [False, True, True], script=s_inv),
+                            Con("pre", "default", False, T3, script=s_pre)]
+                    fns = [Fn("init", 1, False, ["init"], out=[RetV(0)] * 3, setst=1),
+                           Fn("method", 1, False, ["inv", "chk"], [[2]], script=s_b2),
+                           Fn("method", 1, False, ["inv"])]
+                    obj = [{"cls": 1, "st0": 0}, {"cls": 1, "st0": 0}]
+                    drv = [Op("call", 1, 2, 1), Op("call", 1, 1, 1), Op("call", 2, 1, 2), Op("call", 3, 1, 1)]
+                    yield Prog(fns, cons, [], [Cls([1])], obj, [drv], tag="reent-inst")
+
+
+# ------------------------------------------------------------------------------------------------------
+def fam_async_placements(tier: str, rng: random.Random) -> Iterator[dict]:
+    """C13: sync / coroutine-function / coroutine-returning / awaitable-returning conditions and captures on
+    sync and async callables, for every role."""
+    for owner_async in (False, True):
+        for kind in ("func", "method"):
+            for role in ("pre", "post"):
+                for rv in ("bool", "corofn", "coro") + (("future",) if owner_async else ()):
+                    for truth in (True, False):
+                        for form in ("default", "factory", "inst"):
+                            if rv != "bool" and form == "default" and not truth and owner_async:
+                                # documented: an async condition needs an explicit error (cannot be recomputed)
+                                continue
+                            p = member_prog(kind, False, [[1]] if role == "pre" else [], 1 if role == "post" else 0, 0,
+                                            [truth], [truth], [form], False, owner_async, tag="async-cond")
+                            assert p is not None
+                            p["con"][0]["rv"] = rv
+                            yield p
+            for rv in ("bool", "corofn", "coro"):
+                p = member_prog(kind, False, [], 1, 1, [], [True], ["default"], False, owner_async, tag="async-cap")
+                assert p is not None
+                p["snp"][0]["rv"] = rv
+                yield p
+
+
+def async_twin(p: dict) -> Optional[dict]:
+    """The same program with every eligible callable rendered as `async def`."""
+    q = json_copy(p)
+    changed = False
+    for fn in q["fn"]:
+        if fn["kind"] in ("func", "method", "static", "class") and not fn["async"]:
+            fn["async"] = True
+            changed = True
+    for c in q["con"]:
+        if c["lam"]:
+            return None
+    return q if changed else None
